@@ -237,8 +237,12 @@ func fnClientList(ctx *cmdContext, args map[string]any) (output respValue, err e
 			_, included = ids[cs.id]
 		}
 		if included {
-			info := ctx.info(cs)
-			list.WriteString(info)
+			if ctx.multi {
+				// EXEC already owns the data store
+				list.WriteString(ctx.infoUnlocked(cs))
+			} else {
+				list.WriteString(ctx.info(cs))
+			}
 		}
 	})
 
